@@ -223,13 +223,26 @@ func (vc *FnVC) doAlloc(x *ssa.Alloc) {
 		return
 	}
 	r := vc.newRef(hintName(x))
+	hasInv := false
 	switch u := et.Underlying().(type) {
 	case *types.Struct:
 		for i := 0; i < u.NumFields(); i++ {
 			key, _, ft := vc.fieldKey(et, i)
 			vc.set(key, sStore(vc.cur(key), r, vc.sorts.zero(ft)))
-			if vc.fieldInvOf(et, i) != "" && !allocInitialises(x, i) {
-				vc.assert("field-invariant", key+" initialised at allocation", "false")
+			if vc.fieldInvOf(et, i) != "" {
+				hasInv = true
+			}
+		}
+		if hasInv && vc.scratch == 0 {
+			if vc.inLoop(x.Block()) {
+				for i := 0; i < u.NumFields(); i++ {
+					if vc.fieldInvOf(et, i) != "" && !allocInitialises(x, i) {
+						key, _, _ := vc.fieldKey(et, i)
+						vc.assert("field-invariant", key+" initialised at allocation", "false")
+					}
+				}
+			} else {
+				vc.freshObjs = append(vc.freshObjs, freshObj{r, et, x.Block()})
 			}
 		}
 		vc.addrs[x] = &Addr{kind: aObj, ref: r, stT: et, T: et}
